@@ -4,7 +4,9 @@
 package c15
 
 import (
+	"bytes"
 	"fmt"
+	"math/big"
 	"os"
 	"reflect"
 	"regexp"
@@ -13,11 +15,17 @@ import (
 	"time"
 
 	sdkmath "cosmossdk.io/math"
+	"github.com/consensys/gnark-crypto/ecc"
+	native_mimc "github.com/consensys/gnark-crypto/ecc/bn254/fr/mimc"
+	"github.com/consensys/gnark/backend/groth16"
+	"github.com/consensys/gnark/frontend"
+	"github.com/consensys/gnark/frontend/cs/r1cs"
 	sdk "github.com/cosmos/cosmos-sdk/types"
 	authtypes "github.com/cosmos/cosmos-sdk/x/auth/types"
 
 	dakeeper "github.com/sunriselayer/sunrise/x/da/keeper"
 	datypes "github.com/sunriselayer/sunrise/x/da/types"
+	"github.com/sunriselayer/sunrise/x/da/zkp"
 	likeeper "github.com/sunriselayer/sunrise/x/liquidityincentive/keeper"
 	litypes "github.com/sunriselayer/sunrise/x/liquidityincentive/types"
 	lpkeeper "github.com/sunriselayer/sunrise/x/liquiditypool/keeper"
@@ -66,6 +74,9 @@ type world struct {
 	setupNotes []string
 	// pool 4: the amount of base whose sale moves the price to (or just past) the edge tick -20
 	edgeAmount int64
+	// DA: real groth16 proofs for the three shards of the challenged item, and the deputy of the validator
+	proofs [][]byte
+	deputy string
 }
 
 func must(err error) {
@@ -216,16 +227,49 @@ func setup() *world {
 	vb, err := h.App.StakingKeeper.ValidatorAddressCodec().StringToBytes(p.valAddrs[0])
 	must(err)
 	w.valBytes = vb
-	// a DA item that is being challenged (status set through the keeper), so that proofs are examined
-	must(h.App.DaKeeper.SetPublishedData(ctx, datypes.PublishedData{MetadataUri: "ipfs://challenged", ParityShardCount: 1,
-		ShardDoubleHashes: [][]byte{{1, 2, 3}, {4, 5, 6}, {7, 8, 9}}, Timestamp: h.Time, Status: datypes.Status_STATUS_CHALLENGING,
-		Publisher: a0, PublishedTimestamp: h.Time}))
 	// a few blocks: epochs and gauges of x/liquidityincentive come into existence
 	for i := 0; i < 12; i++ {
 		if _, err := h.NextBlock(time.Second); err != nil {
 			w.setupNotes = append(w.setupNotes, "block failed: "+err.Error())
 			break
 		}
+	}
+	// DA: an item that is being challenged, inside its proof period at the time the cases run (status
+	// set through the keeper after the blocks above), whose shard double hashes are MiMC hashes with
+	// real groth16 proofs from the chain's proving key (as the repository's tests build them); the
+	// validator registers account 2 as its proof deputy
+	ctx = h.Ctx()
+	{
+		params, err := h.App.DaKeeper.Params.Get(ctx)
+		must(err)
+		ccs, err := frontend.Compile(ecc.BN254.ScalarField(), r1cs.NewBuilder, &zkp.ValidityProofCircuit{})
+		must(err)
+		pk, err := zkp.UnmarshalProvingKey(params.ZkpProvingKey)
+		must(err)
+		var hashes [][]byte
+		for _, pre := range []int64{111, 222, 333} {
+			preImage := big.NewInt(pre)
+			m := native_mimc.NewMiMC()
+			m.Write(preImage.Bytes())
+			hash := m.Sum(nil)
+			wit, err := frontend.NewWitness(&zkp.ValidityProofCircuit{ShardHash: preImage, ShardDoubleHash: hash}, ecc.BN254.ScalarField())
+			must(err)
+			proof, err := groth16.Prove(ccs, pk, wit)
+			must(err)
+			var buf bytes.Buffer
+			_, err = proof.WriteTo(&buf)
+			must(err)
+			hashes = append(hashes, hash)
+			w.proofs = append(w.proofs, buf.Bytes())
+		}
+		must(h.App.DaKeeper.SetPublishedData(ctx, datypes.PublishedData{MetadataUri: "ipfs://challenged", ParityShardCount: 1,
+			ShardDoubleHashes: hashes, Timestamp: h.Time, Status: datypes.Status_STATUS_CHALLENGING,
+			Publisher: a0, PublishedTimestamp: h.Time}))
+		w.deputy = h.Accts[2].Addr.String()
+		must(apph.Tx(ctx, func(ctx sdk.Context) error {
+			_, err := da.RegisterProofDeputy(ctx, &datypes.MsgRegisterProofDeputy{Sender: sdk.AccAddress(w.valBytes).String(), DeputyAddress: w.deputy})
+			return err
+		}))
 	}
 	acc := h.App.AuthKeeper.AddressCodec()
 	valc := h.App.StakingKeeper.ValidatorAddressCodec()
@@ -578,6 +622,11 @@ func Run(seed int64, n int, outDir string) error {
 	for _, c := range w.mustProbes() {
 		doHead(c.key, c.req, c.tag)
 	}
+	// width-aliasing values in every integer place of every request that has a valid base
+	for _, c := range w.aliasProbes() {
+		doHead(c.key, c.req, c.tag)
+	}
+	anchors := w.anchors()
 	view := w.view()
 	doLiq := func(base bool, amount sdkmath.Int, a, b sdkmath.LegacyDec) {
 		term, info, k := w.runLiq(base, amount, a, b)
@@ -621,6 +670,10 @@ func Run(seed int64, n int, outDir string) error {
 		case k < 50:
 			m, tag := w.genMetaCase(r)
 			doMeta(m, tag)
+		case k < 56: // aliasing grid, anchors of the world included
+			if c, ok := w.genAlias(r, anchors); ok {
+				doHead(c.key, c.req, c.tag)
+			}
 		case k < 62: // boundary grid over the states of the world
 			c := w.genProbe(r, &view)
 			doHead(c.key, c.req, c.tag)
